@@ -218,8 +218,11 @@ func (l *lgen) multiPoint() geom.MultiPoint {
 	for i, n := 0, 1+l.r.Intn(4); i < n; i++ {
 		pts = append(pts, l.pt().AsPoint())
 	}
-	if l.r.Intn(6) == 0 {
-		pts = append(pts, geom.Point{})
+	if l.r.Intn(5) == 0 { // an empty member at any position (also first, also several)
+		for k, m := 0, 1+l.r.Intn(2); k < m; k++ {
+			i := l.r.Intn(len(pts) + 1)
+			pts = append(pts[:i], append([]geom.Point{{}}, pts[i:]...)...)
+		}
 	}
 	return geom.NewMultiPoint(pts)
 }
@@ -229,8 +232,9 @@ func (l *lgen) multiLineString() geom.MultiLineString {
 	for i, n := 0, 1+l.r.Intn(3); i < n; i++ {
 		ls = append(ls, l.lineString())
 	}
-	if l.r.Intn(6) == 0 {
-		ls = append(ls, geom.LineString{})
+	if l.r.Intn(5) == 0 {
+		i := l.r.Intn(len(ls) + 1)
+		ls = append(ls[:i], append([]geom.LineString{{}}, ls[i:]...)...)
 	}
 	return geom.NewMultiLineString(ls)
 }
@@ -245,8 +249,9 @@ func (l *lgen) multiPolygon() geom.MultiPolygon {
 		for i := 0; i < n; i++ {
 			ps = append(ps, l.polygon())
 		}
-		if l.r.Intn(6) == 0 {
-			ps = append(ps, geom.Polygon{})
+		if l.r.Intn(5) == 0 {
+			i := l.r.Intn(len(ps) + 1)
+			ps = append(ps[:i], append([]geom.Polygon{{}}, ps[i:]...)...)
 		}
 		mp := geom.NewMultiPolygon(ps)
 		if mp.Validate() == nil {
